@@ -93,7 +93,7 @@ Apply(e) ==
            IF pc[n].ph # "idle" THEN Fail("wake while running")
            ELSE IF e.why = "token"
            THEN IF ns[n].tok > 0 THEN S([ns EXCEPT ![n].tok = @ - 1, ![n].su = None], [pc EXCEPT ![n] = [ph |-> "woken"]], pend, claimed)
-                ELSE Fail("woken by a token the specification does not have")
+                ELSE S([ns EXCEPT ![n].su = None], [pc EXCEPT ![n] = [ph |-> "woken"]], pend, claimed)      \* a redundant wake-up: harmless
            ELSE IF ns[n].su = e.t THEN S([ns EXCEPT ![n].su = None], [pc EXCEPT ![n] = [ph |-> "woken"]], pend, claimed)
                 ELSE Fail("wake-up time differs from the sleep the specification computed")
       [] e.ev = "job" ->
@@ -112,14 +112,16 @@ Apply(e) ==
                 ELSE LET pe == PassEnd(r.ns, r.pc, e.t) IN
                      IF e.tok = 1
                      THEN IF ~pe.slept /\ r.pc.nw - e.t > 0 THEN S([ns EXCEPT ![n] = pe.ns], [pc EXCEPT ![n] = [ph |-> "again"]], pend, claimed)
+                          ELSE IF pe.slept THEN S([ns EXCEPT ![n] = [pe.ns EXCEPT !.su = None]], [pc EXCEPT ![n] = [ph |-> "again"]], pend, claimed)   \* redundant token
                           ELSE Fail("token consumed where the specification has none")
-                     ELSE IF pe.slept /\ pe.until = e.until THEN S([ns EXCEPT ![n] = pe.ns], [pc EXCEPT ![n] = [ph |-> "idle"]], pend, claimed)
+                     \* sleeping shorter than necessary is harmless (an extra pass); sleeping longer serves the claim timer late
+                     ELSE IF pe.slept /\ e.until <= pe.until /\ e.until > e.t THEN S([ns EXCEPT ![n] = [pe.ns EXCEPT !.su = e.until]], [pc EXCEPT ![n] = [ph |-> "idle"]], pend, claimed)
                           ELSE Fail("sleep time differs from the specification (claim timer served late)")
       [] e.ev = "abs" ->
            IF pc[n].ph # "idle" \/ pend[n] # <<>> THEN Keep
            ELSE IF e.cas # AbsCas(ns[n].cas) THEN Fail("controller application state differs")
-           ELSE IF e.tok # ns[n].tok THEN Fail("wake-up tokens differ")
-           ELSE Keep
+           ELSE IF e.tok < ns[n].tok THEN Fail("wake-up tokens differ")           \* a lost wake-up; more tokens are redundant wake-ups
+           ELSE S([ns EXCEPT ![n].tok = e.tok], pc, pend, claimed)
       [] e.ev = "jobdead" -> Fail("job thread died")
       [] e.ev = "spin" -> Fail("job thread busy-spins")
       [] e.ev \in {"lost", "note", "end", "token"} -> Keep
